@@ -142,4 +142,7 @@ Example c19_nonvacuous_hevc :
              0 1 false 1920 1088 (Some (0, 0, 0, 4)) 0 0 4 true [(4, 2, 0)] [0; 3; 0; 3; 0; 0] [false; true; true] in
   hevc_sps_ok s /\ hspec_width s = 1920%Z /\ hspec_height s = 1080%Z
   /\ exists c, hevc_parse_sps (hevc_sps_nal s) [] = Ok c /\ sps_get H_outh c = 1080 /\ sps_get H_height c = 1088.
-Proof. cbv zeta. repeat split; try (vm_compute; reflexivity). eexists. repeat split; vm_compute; reflexivity. Qed.
+Proof.
+  cbv zeta. split; [vm_compute; reflexivity|]. split; [vm_compute; reflexivity|]. split; [vm_compute; reflexivity|].
+  eexists. split; [vm_compute; reflexivity|]. split; vm_compute; reflexivity.
+Qed.
